@@ -843,7 +843,7 @@ def op_script(step, ctx):
     from recorder import Recorder
     helpers = {'num_abs': num_abs, 'dt_utc_fields': dt_utc_fields, 'be_bytes': be_bytes, 'hc_flag': hc_flag, 'Tap': Tap,
                'small_int': small_int, 'exc_text': exc_text, 'hooks': _hooks}
-    rec = Recorder(ctx['dir'], helpers)
+    rec = Recorder(ctx['dir'], helpers, inplace=bool(step.get('pytest')), max_file=step.get('max_file', 0))
     for extra in step.get('syspath', []):
         if extra not in sys.path:
             sys.path.insert(0, extra)
@@ -863,7 +863,28 @@ def op_script(step, ctx):
     ev = {'op': 'script', 'module': step.get('module', step.get('run_path', '')), 'func': step.get('func', '')}
     with rec:
         try:
-            if step.get('run_path'):
+            if step.get('pytest'):
+                # the repository's own tests, unmodified, with the public API wrapped by the recorder
+                import pytest
+                sys.dont_write_bytecode = True
+                os.environ['HDF5_USE_FILE_LOCKING'] = 'FALSE'
+                cwd = os.getcwd()
+                os.chdir(REPO)
+                so, se = os.dup(1), os.dup(2)
+                dn = os.open(os.devnull, os.O_WRONLY)
+                os.dup2(dn, 1)
+                os.dup2(dn, 2)
+                try:
+                    rc = pytest.main(['-q', '-x', '-p', 'no:cacheprovider', '--rootdir', REPO, '-W', 'ignore'] + [os.path.join(REPO, a) for a in step['pytest']])
+                finally:
+                    os.dup2(so, 1)
+                    os.dup2(se, 2)
+                    os.close(dn)
+                    os.chdir(cwd)
+                    logging.disable(logging.CRITICAL)
+                ev['pytest_rc'] = int(rc)
+                ev['skipped_files'] = rec.skipped
+            elif step.get('run_path'):
                 import runpy
                 import types
                 cl = types.ModuleType('coloredlogs')
